@@ -146,6 +146,17 @@ macro_rules! numtype {
             return;
         }
         ctx.count(match expect_kw { Some(_) => "elements.keyword", None if nv.is_ok() => "elements.value", None => "elements.rejected-by-underlying-type" });
+        // inverted limits (min above max): the interval is empty, no value lies within it however the limits are handed over
+        if !nan_limit && rng.chance(1, 40) && lo < hi {
+            if let Ok(NumericValue::Value(x)) = nv {
+                ctx.count("resolve.value-against-inverted-limits");
+                for (how, r) in [("build", NumericValue::Value(x).build().max(lo).min(hi).finish()), ("finish_with", NumericValue::Value(x).finish_with(lo, hi)), ("new", NumericBuilder::new(NumericValue::Value(x), lo, hi).finish())] {
+                    if !matches!(&r, Err(e) if e.get_code() == -222) {
+                        ctx.violation("C17:value-accepted-although-min-is-above-max", detail(&format!("{} with max={:?} min={:?} -> {:?}", how, lo, hi, r.as_ref().map_err(|e| e.get_code()))));
+                    }
+                }
+            }
+        }
         // 2. resolution
         if nan_limit {
             if let Ok(NumericValue::Value(x)) = nv {
